@@ -639,21 +639,40 @@ pub fn run_op(ctx: &mut Ctx, op: &str) {
         return;
     };
     let space = if blocks.iter().any(|b| DIM[b.ty] == 3) { 3 } else { 2 };
-    let wf = blocks.iter().all(|b| b.refs == b.count());
+    let mut blocks = blocks;
     let mesh = match catch(|| build_mesh(medit, space, nn, &blocks)) {
         Caught::Ok(Ok(m)) => m,
         Caught::Ok(Err(e)) => {
             ctx.count("unbuildable");
-            ctx.record(op.to_string(), format!("skip {}", e), false);
+            ctx.record(op.to_string(), format!("unbuildable {}", e), false);
             return;
         }
         Caught::Panic(m) => {
             ctx.count("build-panic");
-            ctx.record(op.to_string(), format!("skip build panic {}", m), false);
+            ctx.record(op.to_string(), format!("unbuildable: build panic {}", m), false);
             return;
         }
         Caught::Hang => unreachable!(),
     };
+    // The op handed to the model describes the mesh that was actually built: the number of
+    // references per block is read back from it (a reader that fills in missing references
+    // turns the `refs < count` ops into ordinary well-formed ones).
+    let mut op = op.to_string();
+    if mesh.topology().len() == blocks.len() {
+        let mut changed = false;
+        for (b, (_, _, r)) in blocks.iter_mut().zip(mesh.topology()) {
+            if b.refs != r.len() {
+                b.refs = r.len();
+                changed = true;
+            }
+        }
+        if changed {
+            ctx.count("refs-filled-by-reader");
+            op = format_op(if medit { "medit" } else { "raw" }, threads, nn, &blocks);
+        }
+    }
+    let op = op.as_str();
+    let wf = blocks.iter().all(|b| b.refs == b.count());
     let o = match observe(&mesh, threads) {
         Caught::Ok(o) => o,
         Caught::Panic(m) => {
@@ -663,6 +682,8 @@ pub fn run_op(ctx: &mut Ctx, op: &str) {
             let idx = ctx.record(op.to_string(), format!("panic {}", m), false);
             if valid && wf {
                 ctx.fail(idx, "panic", format!("{} [{}]", m, panic_sig(&m)));
+            } else if valid {
+                ctx.fail(idx, "medit-missing-refs", format!("panic {}", m));
             }
             return;
         }
@@ -714,11 +735,13 @@ pub fn run_op(ctx: &mut Ctx, op: &str) {
     let nontrivial = wf && !degenerate && o.rows >= 2 && !o.indices.is_empty() && d >= 2 && d != usize::MAX;
     let idx = ctx.record(op.to_string(), out, nontrivial);
     if !wf {
-        // element lines without a reference column: outside `Mesh::from_raw_parts`' invariant;
-        // the model still predicts the arrays, the property is not evaluated
+        // MEDIT element lines without a reference column: the reader builds a mesh outside
+        // `Mesh::from_raw_parts`' invariant. The model still predicts the arrays; every claim of
+        // the property that breaks is reported under one signature.
         ctx.count("nonwf");
-        if let Some((sig, _)) = structural.as_ref().or(semantic.as_ref()) {
+        if let Some((sig, what)) = structural.or(semantic) {
             ctx.count(&format!("nonwf:{}", sig));
+            ctx.fail(idx, "medit-missing-refs", format!("{}: {}", sig, what));
         }
         return;
     }
